@@ -88,7 +88,14 @@ func discharge(u *Universe, o *Obligation, dir string, timeoutS int, confirm boo
 	script := u.Script(o.Assumptions, o.Goal, true)
 	scriptMu.Unlock()
 	fname := filepath.Join(dir, sanitizeFile(o.Name)+fmt.Sprintf("__p%d_%x.smt2", o.Path, fnv(script)))
-	os.WriteFile(fname, []byte("; obligation "+o.Name+"\n; source "+o.Src+"\n"+script), 0o644)
+	content := []byte("; obligation " + o.Name + "\n; source " + o.Src + "\n" + script)
+	if fi, err := os.Stat(fname); err != nil || fi.Size() != int64(len(content)) {
+		// (the name carries the hash of the script: an existing file of that size is this very query, possibly being read by a
+		// solver for an identical obligation right now - it is not rewritten)
+		tmp := fmt.Sprintf("%s.%p.tmp", fname, o)
+		os.WriteFile(tmp, content, 0o644)
+		os.Rename(tmp, fname) // atomic: a reader sees the old complete file or the new complete file
+	}
 	o.File = fname
 	start := time.Now()
 	definite := func(r solveResult) bool { return r.result == "unsat" || r.result == "sat" }
@@ -233,14 +240,6 @@ func discharge(u *Universe, o *Obligation, dir string, timeoutS int, confirm boo
 	if r.result != "unsat" {
 		o.Model = truncate(r.out, 6000)
 	}
-	// the queries of obligations that came out as expected are not kept (a check writes several GB otherwise); those of
-	// failed obligations stay for the replay file.  "gocv verify" (directory "dev") and GOCV_KEEP_SMT keep everything.
-	if filepath.Base(dir) != "dev" && os.Getenv("GOCV_KEEP_SMT") == "" && ((!o.Cover && r.result == "unsat") || (o.Cover && r.result == "sat")) {
-		os.Remove(fname)
-		for _, v := range variants {
-			os.Remove(v.file)
-		}
-	}
 }
 
 func sanitizeFile(s string) string {
@@ -280,4 +279,28 @@ func dischargeAll(u *Universe, obls []*Obligation, dir string, timeoutS int, con
 	}
 	close(ch)
 	wg.Wait()
+	// the queries of obligations that came out as expected are not kept (a full quick tier wrote 14 GB otherwise); those of
+	// failed obligations stay for the replay files.  Done only now: identical obligations share one file, so nothing may be
+	// removed while another instance could still be running.  "gocv verify" (directory "dev") and GOCV_KEEP_SMT keep everything.
+	if filepath.Base(dir) == "dev" || os.Getenv("GOCV_KEEP_SMT") != "" {
+		return
+	}
+	asExpected := func(o *Obligation) bool { return (!o.Cover && o.Result == "unsat") || (o.Cover && o.Result == "sat") }
+	keep := map[string]bool{}
+	for _, o := range obls {
+		if o.File != "" && !asExpected(o) {
+			keep[o.File] = true
+		}
+	}
+	for _, o := range obls {
+		if o.File == "" || keep[o.File] || !asExpected(o) {
+			continue
+		}
+		os.Remove(o.File)
+		if vs, err := filepath.Glob(strings.TrimSuffix(o.File, ".smt2") + ".*.smt2"); err == nil {
+			for _, v := range vs {
+				os.Remove(v)
+			}
+		}
+	}
 }
